@@ -14586,3 +14586,334 @@ func ruleOperandBackUnchanged(c *Ctx) {
 	}
 	c.Floor("operand-back-unchanged.integer results in execute", n, 20)
 }
+
+// ---------------------------------------------------------------------------
+// round 11
+
+// ruleVoterCacheFollowsStorage (C01): NEO keeps the latest reward-per-vote of every candidate both in storage (under
+// the voter-reward key) and in gasPerVoteCache, and readers prefer the cache. A function that deletes the stored
+// record deletes the cache entry too; a running node would otherwise go on answering from the cache what a restarted
+// node, whose cache is rebuilt from storage, no longer finds - and the rewards of a re-elected candidate differ.
+func ruleVoterCacheFollowsStorage(c *Ctx) {
+	pk := c.P.Pkg("pkg/core/native")
+	if pk == nil {
+		c.Lost("voter-cache-follows-storage.anchor", "package native not found")
+		return
+	}
+	info := pk.TypesInfo
+	n := 0
+	for _, fd := range c.P.AllFuncDecls() {
+		if fd.Pkg != pk || fd.Decl.Body == nil {
+			continue
+		}
+		var dels []*ast.CallExpr
+		cacheDel := false
+		ast.Inspect(fd.Decl.Body, func(x ast.Node) bool {
+			call, ok := x.(*ast.CallExpr)
+			if !ok {
+				return true
+			}
+			if se, ok := ast.Unparen(call.Fun).(*ast.SelectorExpr); ok && se.Sel.Name == "DeleteStorageItem" && len(call.Args) == 2 {
+				key := resolveLocalOnce(info, fd.Decl.Body, call.Args[1])
+				if kc, ok := ast.Unparen(key).(*ast.CallExpr); ok {
+					if fn := calleeFunc(info, kc); fn != nil && fn.Name() == "makeVoterKey" {
+						dels = append(dels, call)
+					}
+				}
+			}
+			if id, ok := call.Fun.(*ast.Ident); ok && id.Name == "delete" && len(call.Args) == 2 {
+				if se, ok := ast.Unparen(call.Args[0]).(*ast.SelectorExpr); ok && se.Sel.Name == "gasPerVoteCache" {
+					cacheDel = true
+				}
+			}
+			return true
+		})
+		for _, d := range dels {
+			n++
+			key := "voter-cache-follows-storage:" + shortSym(FuncKey(fd.Obj))
+			if cacheDel {
+				c.OK(key, c.P.Pos(d.Pos()), "the cached reward record is dropped together with the stored one")
+			} else {
+				c.Fail(key, c.P.Pos(d.Pos()), shortSym(FuncKey(fd.Obj))+" deletes the stored reward-per-vote record of a candidate and leaves its entry in gasPerVoteCache, which readers prefer to storage: the running node keeps answering the old accumulated value, a restarted node (cache rebuilt from storage) finds nothing - when the key is registered and voted for again, the voters' rewards and the state roots of the two differ")
+			}
+		}
+	}
+	c.Floor("voter-cache-follows-storage.deletions", n, 1)
+}
+
+// ruleAppendToSharedField (C09, C17): `append(x.f, …)` may write into the spare capacity of x.f's backing array; when the
+// result goes anywhere but back into x.f, every later call writes over what the earlier one returned. In the storage
+// iterator (which builds one key per Value() call from a prefix it keeps) and the other interop iterators, the first
+// argument of an append is a struct field only in the statement that assigns the result to that very field.
+func ruleAppendToSharedField(c *Ctx) {
+	n, bad := 0, 0
+	for _, fd := range c.P.AllFuncDecls() {
+		rel := pkgRel(fd.Pkg.Types)
+		if fd.Decl.Body == nil || !(rel == "pkg/core/interop/storage" || rel == "pkg/core/interop/iterator" || rel == "pkg/core/storage") {
+			continue
+		}
+		info := fd.Pkg.TypesInfo
+		ast.Inspect(fd.Decl.Body, func(x ast.Node) bool {
+			as, ok := x.(*ast.AssignStmt)
+			var calls []*ast.CallExpr
+			if ok {
+				for _, r := range as.Rhs {
+					if call, ok := ast.Unparen(r).(*ast.CallExpr); ok {
+						calls = append(calls, call)
+					}
+				}
+			} else if rs, ok := x.(*ast.ReturnStmt); ok {
+				for _, r := range rs.Results {
+					if call, ok := ast.Unparen(r).(*ast.CallExpr); ok {
+						calls = append(calls, call)
+					}
+				}
+			}
+			for i, call := range calls {
+				id, ok := call.Fun.(*ast.Ident)
+				if !ok || id.Name != "append" || len(call.Args) < 2 {
+					continue
+				}
+				se, ok := ast.Unparen(call.Args[0]).(*ast.SelectorExpr)
+				if !ok {
+					continue
+				}
+				if v, ok := info.ObjectOf(se.Sel).(*types.Var); !ok || !v.IsField() {
+					continue
+				}
+				n++
+				back := as != nil && i < len(as.Lhs) && sameExpr(info, as.Lhs[i], call.Args[0])
+				if !back {
+					bad++
+					c.Fail(fmt.Sprintf("append-to-shared-field:%s#%d", shortSym(FuncKey(fd.Obj)), bad), c.P.Pos(call.Pos()), fmt.Sprintf("%s appends to the field `%s` and gives the result to something else: while the field's backing array has spare capacity (a cloned 1-8 byte prefix has), every call writes into the same bytes, and what an earlier call returned - a key the script still holds - changes under its holder", FuncKey(fd.Obj), types.ExprString(call.Args[0])))
+				}
+			}
+			return true
+		})
+	}
+	if bad == 0 {
+		c.OK("append-to-shared-field", "pkg/core/interop/storage", fmt.Sprintf("%d appends to struct fields, each assigned back to its field", n))
+	}
+}
+
+// ruleAllGroupsVerified (C16, C15): a manifest group means membership only because its signature over the contract hash
+// was verified at deployment; Permission.IsAllowed later matches by key alone. In Groups.AreValid the loop that calls
+// Group.IsValid visits every group: nothing in its body leaves the iteration (continue / break) before the call, and no
+// condition around the call mentions the loop index.
+func ruleAllGroupsVerified(c *Ctx) {
+	fd := c.P.Func("pkg/smartcontract/manifest", "Groups", "AreValid")
+	if fd == nil {
+		c.Lost("all-groups-verified.anchor", "manifest.Groups.AreValid not found")
+		return
+	}
+	info := fd.Pkg.TypesInfo
+	n := 0
+	var stack []ast.Node
+	ast.Inspect(fd.Decl.Body, func(x ast.Node) bool {
+		if x == nil {
+			stack = stack[:len(stack)-1]
+			return true
+		}
+		stack = append(stack, x)
+		call, ok := x.(*ast.CallExpr)
+		if !ok {
+			return true
+		}
+		fn := calleeFunc(info, call)
+		if fn == nil || fn.Name() != "IsValid" || !strings.HasSuffix(FuncKey(fn), "manifest.(*Group).IsValid") {
+			return true
+		}
+		n++
+		// the innermost enclosing loop
+		var loop ast.Stmt
+		var body *ast.BlockStmt
+		var idx types.Object
+		li := -1
+		for i := len(stack) - 1; i >= 0; i-- {
+			switch l := stack[i].(type) {
+			case *ast.RangeStmt:
+				loop, body, li = l, l.Body, i
+				if id, ok := l.Key.(*ast.Ident); ok {
+					idx = info.ObjectOf(id)
+				}
+			case *ast.ForStmt:
+				loop, body, li = l, l.Body, i
+			}
+			if loop != nil {
+				break
+			}
+		}
+		why := ""
+		if loop == nil {
+			// outside a loop: one group only is verified
+			why = "the call stands outside any loop over the groups"
+		} else {
+			ast.Inspect(body, func(y ast.Node) bool {
+				if bs, ok := y.(*ast.BranchStmt); ok && bs.Pos() < call.Pos() && (bs.Tok == token.CONTINUE || bs.Tok == token.BREAK) {
+					why = "the loop body can leave the iteration before the call (" + c.P.Pos(bs.Pos()) + ")"
+				}
+				return true
+			})
+			for i := li + 1; i < len(stack) && why == ""; i++ {
+				if is, ok := stack[i].(*ast.IfStmt); ok && idx != nil {
+					ast.Inspect(is.Cond, func(y ast.Node) bool {
+						if id, ok := y.(*ast.Ident); ok && info.ObjectOf(id) == idx {
+							why = "the call stands under a condition on the loop index"
+						}
+						return true
+					})
+				}
+			}
+		}
+		// a second, unconditional loop-free call for a single group is fine only next to a looped one: judged per call
+		if why == "" {
+			c.OK(fmt.Sprintf("all-groups-verified#%d", n), c.P.Pos(call.Pos()), "every group's signature is verified")
+		} else {
+			c.Fail(fmt.Sprintf("all-groups-verified#%d", n), c.P.Pos(call.Pos()), "Groups.AreValid does not verify the signature of every group: "+why+" - a manifest can list another group's key with a garbage signature next to a group of its own, and becomes callable by every contract that granted permission to that group")
+		}
+		return true
+	})
+	c.Floor("all-groups-verified.calls", n, 1)
+}
+
+// ruleGlobalScopeExclusive (C17, C15): Global is a scope of its own: the decoders refuse it in combination with any
+// other bit. The rejecting test of Signer.DecodeBinary compares the whole scope value with Global (== / !=); a test made
+// of masks names the bits it knows and lets the others (CalledByEntry: 0x81) through - a value the JSON form cannot
+// express and the JSON decoder refuses.
+func ruleGlobalScopeExclusive(c *Ctx) {
+	fd := c.P.Func("pkg/core/transaction", "Signer", "DecodeBinary")
+	if fd == nil {
+		c.Lost("global-scope-exclusive.anchor", "Signer.DecodeBinary not found")
+		return
+	}
+	info := fd.Pkg.TypesInfo
+	isGlobal := func(e ast.Expr) bool {
+		id, ok := ast.Unparen(e).(*ast.Ident)
+		if !ok || id.Name != "Global" {
+			return false
+		}
+		_, isConst := info.ObjectOf(id).(*types.Const)
+		return isConst
+	}
+	found, anyWhole := false, false
+	var first *ast.IfStmt
+	var conds []string
+	ast.Inspect(fd.Decl.Body, func(x ast.Node) bool {
+		is, ok := x.(*ast.IfStmt)
+		if !ok {
+			return true
+		}
+		mentions, whole := false, false
+		ast.Inspect(is.Cond, func(y ast.Node) bool {
+			switch z := y.(type) {
+			case *ast.Ident:
+				if isGlobal(z) {
+					mentions = true
+				}
+			case *ast.BinaryExpr:
+				if (z.Op == token.NEQ || z.Op == token.EQL) && (isGlobal(z.X) || isGlobal(z.Y)) {
+					other := z.X
+					if isGlobal(z.X) {
+						other = z.Y
+					}
+					if se, ok := ast.Unparen(other).(*ast.SelectorExpr); ok && se.Sel.Name == "Scopes" {
+						whole = true
+					}
+				}
+			}
+			return true
+		})
+		if !mentions {
+			return true
+		}
+		found = true
+		if first == nil {
+			first = is
+		}
+		conds = append(conds, types.ExprString(is.Cond))
+		if whole {
+			anyWhole = true
+		}
+		return true
+	})
+	switch {
+	case !found:
+		c.Lost("global-scope-exclusive.shape", "Signer.DecodeBinary no longer tests the Global scope")
+	case anyWhole:
+		c.OK("global-scope-exclusive", c.P.Pos(first.Pos()), "Global is refused next to any other bit (the whole scope value is compared with Global)")
+	default:
+		c.Fail("global-scope-exclusive", c.P.Pos(first.Pos()), fmt.Sprintf("none of the tests of Signer.DecodeBinary that mention Global (`%s`) compares the whole scope value with it: Global next to a bit the masks do not name (CalledByEntry, 0x81) decodes and round-trips in binary, has no JSON form (\"WitnessScope(129)\") and is refused by the JSON decoder - the same transaction is valid on the wire and unreadable over RPC", strings.Join(conds, "`, `")))
+	}
+}
+
+// ruleIntegerBodyBounded (C17, C12): an Integer stack item is at most 32 bytes; bigint.FromBytes / NewBigInteger panic on
+// more. In the stack item decoders the bytes given to bigint.FromBytes come from a ReadVarBytes whose limit is a
+// constant not above bigint.MaxBytesLen: a longer body is a decoding error, never a panic.
+func ruleIntegerBodyBounded(c *Ctx) {
+	pk := c.P.Pkg("pkg/vm/stackitem")
+	if pk == nil {
+		c.Lost("integer-body-bounded.anchor", "package stackitem not found")
+		return
+	}
+	info := pk.TypesInfo
+	n := 0
+	for _, fd := range c.P.AllFuncDecls() {
+		if fd.Pkg != pk || fd.Decl.Body == nil {
+			continue
+		}
+		var stack []ast.Node
+		ast.Inspect(fd.Decl.Body, func(x ast.Node) bool {
+			if x == nil {
+				stack = stack[:len(stack)-1]
+				return true
+			}
+			stack = append(stack, x)
+			call, ok := x.(*ast.CallExpr)
+			if !ok || len(call.Args) != 1 {
+				return true
+			}
+			fn := calleeFunc(info, call)
+			if fn == nil || fn.Name() != "FromBytes" || fn.Pkg() == nil || !strings.HasSuffix(fn.Pkg().Path(), "encoding/bigint") {
+				return true
+			}
+			// the bytes: a local of the enclosing case clause / function defined by ReadVarBytes(limit)
+			var scope ast.Node = fd.Decl.Body
+			for i := len(stack) - 1; i >= 0; i-- {
+				if cc, ok := stack[i].(*ast.CaseClause); ok {
+					scope = cc
+					break
+				}
+			}
+			src := ast.Unparen(resolveLocalOnce(info, scope, call.Args[0]))
+			rc, ok := src.(*ast.CallExpr)
+			if !ok {
+				return true
+			}
+			se, ok := ast.Unparen(rc.Fun).(*ast.SelectorExpr)
+			if !ok || se.Sel.Name != "ReadVarBytes" {
+				return true
+			}
+			n++
+			key := fmt.Sprintf("integer-body-bounded:%s#%d", shortSym(FuncKey(fd.Obj)), n)
+			good := false
+			if len(rc.Args) == 1 {
+				if tv, ok := info.Types[rc.Args[0]]; ok && tv.Value != nil {
+					if v, exact := constant.Int64Val(tv.Value); exact && v <= 32 {
+						good = true
+					}
+				}
+			}
+			if good {
+				c.OK(key, c.P.Pos(call.Pos()), "the integer's bytes are read with a limit of at most bigint.MaxBytesLen")
+			} else {
+				lim := "no limit"
+				if len(rc.Args) == 1 {
+					lim = types.ExprString(rc.Args[0])
+				}
+				c.Fail(key, c.P.Pos(call.Pos()), fmt.Sprintf("%s reads the body of an Integer item with the limit %s and hands it to bigint.FromBytes / NewBigInteger, which panic above 32 bytes: a serialised item with a longer Integer body makes the decoder panic instead of returning an error", FuncKey(fd.Obj), lim))
+			}
+			return true
+		})
+	}
+	c.Floor("integer-body-bounded.sites", n, 1)
+}
